@@ -432,6 +432,7 @@ fn run(ctx: &Ctx, report: &mut Report) {
                 report.nontrivial += 1;
             }
             let case = json!({"primitives": true, "offered": st.offered, "backend": kind, "removal": *full});
+            let _watch = crate::util::watch::enter("store primitives on one state", case.clone());
             match catch(|| run_primitives(st, kind, *full)) {
                 Err(p) => report.violation(
                     "no_panic",
@@ -465,6 +466,7 @@ fn one_triple(report: &mut Report, a: &State, b: &State, cfg: Cfg, ordinal: u64)
         report.nontrivial += 1;
     }
     let case = || case_json(&a.offered, &b.offered, cfg, BackendKind::Ref);
+    let _watch = crate::util::watch::enter("three-backend session", case());
     match catch(|| run_triple(a, b, cfg)) {
         Err(p) => report.violation(
             "no_panic",
